@@ -270,7 +270,7 @@ func c17R2(e *Engine) {
 	}
 	handled := map[string]bool{}
 	instrs(mk, func(in ssa.Instruction) {
-		if b, ok := in.(*ssa.BinOp); ok && b.Op == token.EQL {
+		if b, ok := in.(*ssa.BinOp); ok && (b.Op == token.EQL || b.Op == token.NEQ) {
 			if s, isK := constString(b.Y); isK {
 				handled[s] = true
 			}
